@@ -16,7 +16,7 @@ class C02(Prop):
     CASE_HEADER = ("From Boreal Require Import Base.Prelude Spec.Regex Model.Hir Model.Widen Model.Validator "
                    "Model.Raw Model.HirScan Model.HexCase.")
     HARNESS_BINS = ("c02",)
-    KF = {1: "C02-start-position"}
+    KF = {1: "C02-start-position", 3: "C02-alt-glue"}
     RULE = ("hex token ASTs (bytes, ?X, X?, ??, ~XX, ~?X, ~X?, [n], [n-m], [n-], [-m], nested alternatives of unequal "
             "lengths, depth <= 3) printed to YARA syntax, compiled by the real engine; per pattern 4 inputs <= 64 "
             "bytes made of members / near-members of L(p) spliced and overlapped into noise drawn from the pattern's "
@@ -106,7 +106,7 @@ class C02(Prop):
         return [self.gen_case(rng.fork("c%d" % i)) for i in range(n)]
 
     def budget(self, tier):
-        return 400 if tier == "quick" else 6000
+        return 900 if tier == "quick" else 8000
 
     def corpus(self, ctx):
         return _hir.load_corpus("C02")
